@@ -644,6 +644,50 @@ fn mutants(base: &Spend, kind: &str, m: &MutCtx, rng: &mut Rng, budget: usize) -
             }
         }
     }
+    // IF selectors (and every other 01 / empty element) in a non-minimal form of the same truth
+    // value: 01 -> 02 00, empty -> 00.  MINIMALIF (v0, tapscript) makes the script fail; the base
+    // signature version (sh, bare) has no such rule.
+    {
+        let nonmin = |b: &Vec<u8>| -> Option<Vec<u8>> {
+            if b.as_slice() == [1u8] {
+                Some(vec![2, 0])
+            } else if b.is_empty() {
+                Some(vec![0])
+            } else {
+                None
+            }
+        };
+        let mut nsel = 0;
+        for i in 0..base.wit.len() {
+            if w_struct(i) || nsel >= 6 {
+                continue;
+            }
+            if let Some(nb) = nonmin(&base.wit[i]) {
+                let mut s2 = base.clone();
+                s2.wit[i] = nb;
+                s2.base = "mut";
+                s2.mkind = "w:sel-nonminimal".into();
+                if seen.insert((s2.wit.clone(), s2.ssig.clone())) {
+                    out.push(s2);
+                    nsel += 1;
+                }
+            }
+        }
+        for i in 0..items.len() {
+            if s_struct(i) || nsel >= 6 {
+                continue;
+            }
+            if let Some(nb) = nonmin(&items[i]) {
+                let mut it = items.clone();
+                it[i] = nb;
+                let s2 = Spend { mkind: "s:sel-nonminimal".into(), base: "mut", wit: base.wit.clone(), ssig: build_ssig(&it) };
+                if seen.insert((s2.wit.clone(), s2.ssig.clone())) {
+                    out.push(s2);
+                    nsel += 1;
+                }
+            }
+        }
+    }
     // a different script in place of the committed one: OP_1 with nothing to consume
     match kind {
         "wsh" | "shwsh" => out.push(Spend { mkind: "script-true".into(), base: "mut", wit: vec![vec![0x51]], ssig: base.ssig.clone() }),
@@ -983,6 +1027,39 @@ fn decoded_dump(w: &World, kind: &str, script: &[u8]) -> Option<String> {
     r.ok().flatten()
 }
 
+/// the same with the context's fragment restrictions lifted (generic consensus parameters): tells a
+/// miniscript outside the context's language (or_i / d: before segwit) from a non-miniscript
+fn decoded_dump_ext(w: &World, kind: &str, script: &[u8]) -> Option<String> {
+    let s = Script::from_bytes(script);
+    let p = miniscript::ValidationParams::CONSENSUS;
+    let r = catch_unwind(AssertUnwindSafe(|| -> Option<String> {
+        match kind {
+            "wsh" | "shwsh" => {
+                let m = Miniscript::<bitcoin::PublicKey, Segwitv0>::decode_with_validation_params(s, &p).ok()?;
+                let t = m.translate_pk(&mut ToKey).ok()?;
+                Some(dump_str(w, &t.node))
+            }
+            "sh" => {
+                let m = Miniscript::<bitcoin::PublicKey, Legacy>::decode_with_validation_params(s, &p).ok()?;
+                let t = m.translate_pk(&mut ToKey).ok()?;
+                Some(dump_str(w, &t.node))
+            }
+            "bare" => {
+                let m = Miniscript::<bitcoin::PublicKey, BareCtx>::decode_with_validation_params(s, &p).ok()?;
+                let t = m.translate_pk(&mut ToKey).ok()?;
+                Some(dump_str(w, &t.node))
+            }
+            "tr" => {
+                let m = Miniscript::<XOnlyPublicKey, Tap>::decode_with_validation_params(s, &p).ok()?;
+                let t = m.translate_pk(&mut XToKey).ok()?;
+                Some(dump_str(w, &t.node))
+            }
+            _ => None,
+        }
+    }));
+    r.ok().flatten()
+}
+
 fn script_elem<'a>(kind: &str, sp: &'a Spend, items: &'a [Vec<u8>], spk: &'a [u8]) -> Option<&'a [u8]> {
     match kind {
         "wsh" | "shwsh" => sp.wit.last().map(|v| &v[..]),
@@ -1168,6 +1245,16 @@ fn emit_spend(
                     match d {
                         Some(d) => writeln!(out, "IMS {}", d).unwrap(),
                         None => writeln!(out, "IMS ?").unwrap(),
+                    }
+                }
+            }
+            if inferred.is_none() && verdict == "err:from:decode" {
+                // from_txdata could not decode the script: is it a miniscript outside the context's language?
+                if let Some(se) = script_elem(c.kind, sp, &items, spk.as_bytes()) {
+                    if decoded_dump(w, c.kind, se).is_none() {
+                        if let Some(d) = decoded_dump_ext(w, c.kind, se) {
+                            writeln!(out, "IMSX {}", d).unwrap();
+                        }
                     }
                 }
             }
@@ -1388,9 +1475,10 @@ fn directed(w: &World) -> Vec<(String, bool)> {
         format!("and_b(pk({}),a:and_b(hash160({}),s:pk({})))", k(0), h160(1), k(1)),
         format!("or_b(pk({}),s:pk({}))", k(0), k(1)),
         format!("and_v(v:pk({}),or_d(pk({}),older(12960)))", k(0), k(1)),
-        format!("thresh(2,pk({}),s:pk({}),sdv:older(7))", k(0), k(1)),
+        format!("thresh(2,pk({}),s:pk({}),sln:older(7))", k(0), k(1)),
         format!("and_v(v:multi(1,{},{}),after(100))", k(0), k(1)),
         format!("or_d(multi(1,{}),and_v(v:pk({}),after(100)))", k(0), k(1)),
+        format!("or_i(pk({}),pk({}))", k(0), k(1)),
     ];
     for f in frags.iter() {
         v.push((format!("wsh({})", f), true));
@@ -1400,6 +1488,9 @@ fn directed(w: &World) -> Vec<(String, bool)> {
         v.push((format!("sh({})", f), true));
     }
     v.push((format!("sh(multi(1,{},{}))", k(6), k(7)), true));
+    // IF selectors under the base signature version (no MINIMALIF)
+    v.push((format!("sh(or_i(pk({}),pk({})))", k(0), k(1)), true));
+    v.push((format!("sh(and_b(pk({}),a:or_b(dv:older(7),s:pk({}))))", k(0), k(1)), true));
     v.push((format!("multi(1,{},{})", k(0), k(1)), true));
     v.push((format!("pk({})", k(0)), true));
     v.push((format!("pk({})", k(6)), true));
